@@ -31,6 +31,8 @@ EXPLANATION = (
     ' _calc_lengths decide that the cache is valid must use a field of that set.'
     " R15.6: 'unchanged by reversal' - C16's per-class reversal effects (start/end exchanged, ordered control"
     ' points exchanged, sweep negated, on every path through reverse()) run here as well.'
+    " R15.7: the connection validators store copies of the neighbour's end point (C18's"
+    ' linked_points_are_copies), so an in-place transform of an assembled path maps every point once.'
 )
 TECHNIQUE = (
     "static analysis (no execution): role-based structural rules for additivity/fractions/point(t); closed forms as exact canonical forms; collinear fallback by partial evaluation; NNF of the subdivision stopping test; cache-coherence fixed point over the call graph"
